@@ -98,10 +98,18 @@ def random_case(rng, features=()):
                         L("unknown", text=rng.choice(["#foo bar", "#warning w", "#line 7", "#error e", "#ident \"x\"", "#sccs y"])))
         files[rel] = body
         srcs.append(rel)
+    if "dupes" in features:
+        # byte-identical twins that are used differently (never compiled / never included)
+        src = rng.choice(srcs)
+        files[os.path.dirname(src) + "/dup_" + os.path.basename(src)] = list(files[src])
+        hdrs = [k for k in files if k.endswith(".h")]
+        h = rng.choice(hdrs)
+        files["cb/src/sub/twin_" + os.path.basename(h)] = list(files[h])
     links = {}
     if "links" in features:
         tgt = rng.choice(srcs + [k for k in files if k.endswith(".h")])
-        links["cb/src/link_" + os.path.basename(tgt)] = tgt
+        d = rng.choice(["cb/src", "cb/src/sub", "cb/inc"])
+        links[d + "/link_" + os.path.basename(tgt)] = ("rel:" if rng.random() < 0.5 else "") + tgt
         if rng.random() < 0.5:
             links["cb/lnkdir"] = "cb/inc"
     nplat = rng.randint(2, 3) if "multi" in features else 1
@@ -127,6 +135,21 @@ def random_case(rng, features=()):
                 forced = [rng.choice(HEADERS)]
             entries.append({"file": src, "defines": defines, "include_paths": idirs, "include_files": forced})
         platforms[f"p{pi}"] = entries
+    if "aliases" in features:
+        # the same files reached through a directory link with a different parent, and through ./.. segments
+        files.setdefault("cb/src/sub/keep.h", [L("code")])
+        links["cb/lnk_sub"] = "cb/src/sub"
+        for entries in platforms.values():
+            for e in entries:
+                d, b = os.path.dirname(e["file"]), os.path.basename(e["file"])
+                r = rng.random()
+                if d == "cb/src" and r < 0.4:
+                    e["file"] = "cb/lnk_sub/../" + b
+                elif r < 0.7:
+                    e["file"] = d + "/./../" + os.path.basename(d) + "/" + b
+                e["include_paths"] = [(os.path.dirname(x) + "/" + os.path.basename(x) + "/../" + os.path.basename(x))
+                                      if rng.random() < 0.4 else ("cb/lnk_sub" if x == "cb/src/sub" and rng.random() < 0.7 else x)
+                                      for x in e["include_paths"]]
     excludes = []
     if "exclude" in features:
         excludes = rng.sample(["*.h", "sub/", "s0.c", "inc/*", "/sys", "g.h"], rng.randint(1, 2))
